@@ -82,10 +82,28 @@ def d1_rounding(ctx):
             casts.append((st, st.value))
     if not casts:
         raise AnchorMissing("_ind2save: no conversion to an integer sample type found (neither astype/np.int16 nor a store into an integer array)")
+    casts_alt = []
     for c, operand in casts:
+        # a frame assembled on several paths (fast path / general path) and possibly rounded in place (np.round(x, out=x)): one instance per definition that reaches the cast
+        nm_ = None
+        base_ = operand
+        while isinstance(base_, ast.Call) and call_name(base_) == "astype" and isinstance(base_.func, ast.Attribute):
+            base_ = base_.func.value
+        if isinstance(base_, ast.Name):
+            nm_ = base_.id
+        ds_ = [d for d in du.reaching(nm_, c) if d.kind == "assign" and d.value is not None] if nm_ else []
+        if nm_ and len(ds_) > 1:
+            for d in ds_:
+                inpl = [x for x in find(fi.node, ast.Call) if call_name(x) in ("round", "rint", "around") and x.args and loc_name(x.args[0]) == nm_ and loc_name(kwarg(x, "out")) == nm_
+                        and du.cfg.reachable(d.node, du.cfg.node_for(x)) and du.cfg.reachable(du.cfg.node_for(x), du.cfg.node_for(c))
+                        and du.cfg.guards(du.cfg.node_for(x)) == du.cfg.guards(d.node)]
+                casts_alt.append((c, d.value, d.stmt, bool(inpl)))
+        else:
+            casts_alt.append((c, operand, c, False))
+    for c, operand, at_, rounded_inplace in casts_alt:
         from sa.common import expand_deep
-        v = expand_deep(du, operand, c)
-        bad = _has_unrounded_division(v)
+        v = expand_deep(du, operand, at_)
+        bad = _has_unrounded_division(v) and not rounded_inplace
         ctx.check(not bad, fi, c, f"{src(c)[:40]}...astype", "the volts/sample2volts quotient is rounded to nearest before the integer cast",
                   "a float quotient is cast to an integer type without rounding: astype truncates toward zero, so samples whose quotient "
                   "lands just below the integer come back 1 LSB low", key="cast")
